@@ -147,6 +147,32 @@ __CPROVER_ensures((void *)((CB *)gh_st_block)->_vptr_future_with_cb == (void *)&
 ;
 #endif
 
+/* future_with_cb::operator<<(factory) (audit E "Adjacent", audit A item 2).  future_with_cb IS the helper object of make_promise (anchor future.h:875-946) and
+ * operator<< is its second public registration route: start the operation (the factory returns the awaited future into the helper) and have the helper's
+ * callback complete it.  Clause from the property: "A completion registered through ... runs exactly once per awaited operation - with the operation's value,
+ * or its exception or broken-promise state - whether the awaited future was already resolved at registration, resolves later ..., or resolves concurrently
+ * ..., and the helper's heap or storage block is released exactly once afterwards."  Function under contract = the fixed-signature driver wrapper
+ * drv_cb_shift(f, fn) { (*f) << std::move(*fn); } with the real operator<< / result_of / resume lambda / destructors translated into it. */
+#ifdef CV_HAS_cb_shift
+#define CB_RAN_ONCE_WITH_OUTCOME(o) (gh_cb_calls == 1 && gh_cb_this == (void *)&(o)->_fn && gh_cb_arg == (void *)CB_FUT(o) && gh_cb_ready == 1 && gh_cb_state == gh_out_state && \
+   (gh_out_state == ST_VALUE ==> gh_cb_val == gh_out_val) && (gh_out_state == ST_EXCEPTION ==> gh_cb_exc == gh_out_exc) && gh_cb_dels_at_call == 0)
+cv_i32 gh_tag;
+void cb_shift(CB *f, FAC *fn)
+__CPROVER_requires(cv_exc_pending == 0 && OUT_PRE && gh_obj != 0 && f == (CB *)gh_obj && CB_CONSTRUCTED((CB *)gh_obj, gh_tag) && __CPROVER_is_fresh(fn, sizeof(*fn)))     /* a helper as its constructor left it: no promise handed out, nothing pending */
+__CPROVER_requires(gh_cb_calls == 0 && gh_del_calls == 0 && gh_new_calls == 0 && gh_st_deallocs == 0 && gh_sn_calls == 0)
+__CPROVER_assigns(__CPROVER_object_whole(gh_obj), ENV_GHOSTS, CB_GHOSTS, HEAP_GHOSTS, ST_GHOSTS, gh_ep_release, gh_ep_addref, gh_sn_calls)
+__CPROVER_frees(gh_obj)
+__CPROVER_ensures(cv_exc_pending == 0 && gh_fac_calls == 1 && gh_fac_this == (void *)fn && gh_fac_ret == (void *)CB_FUT((CB *)gh_obj))                 /* the operation is started once; the awaited future lives in the helper */
+__CPROVER_ensures(gh_cb_calls >= 1 || (gh_sub_calls == 1 && gh_sub_result == 1 && gh_sub_fut == gh_fac_ret && gh_sub_awt == (void *)CB_AWT((CB *)gh_obj)))   /* C18-CBSHIFT: the completion has run, or it is registered with the awaited future (never lost) */
+__CPROVER_ensures(gh_cb_calls >= 1 ==> (CB_RAN_ONCE_WITH_OUTCOME((CB *)gh_obj) && gh_del_calls == 1 && gh_del_last == gh_obj))                         /* whenever it has run: exactly once, with the outcome, on the live helper; block released once afterwards */
+__CPROVER_ensures((gh_sub_calls == 1 && (gh_sub_result == 0 || gh_env_resumes == 1)) ==> gh_cb_calls == 1)                                              /* resolved at registration (run by this thread) / concurrently (run by the resolver, not again by this thread) */
+__CPROVER_ensures((gh_sub_calls == 1 && gh_sub_result == 1 && gh_env_resumes == 0) ==> (gh_cb_calls == 0 && gh_del_calls == 0 && (void *)CB_AWT((CB *)gh_obj)->_resume_fn == (void *)cb_invoke && \
+                   *F_SLOT(CB_FUT((CB *)gh_obj)) != F_DIS && ((CB *)gh_obj)->_fn.tag == gh_tag))                                                          /* still waiting: the subscribed awaiter will run the callback (cb_invoke unit) */
+__CPROVER_ensures(gh_new_calls == 0 && gh_sn_calls == 0 && gh_st_deallocs == 0)
+__CPROVER_ensures(gh_del_calls == 1 ==> gh_ep_release == __CPROVER_old(gh_ep_release) + (gh_out_state == ST_EXCEPTION ? 1 : 0))
+;
+#endif
+
 /* =================================== discard ================================================================================== */
 #define D_FUT(o) (&(o)->_fut)
 #define D_AWT(o) (&(o)->base_awaiter)
@@ -262,20 +288,24 @@ void ctx_conv_p(SP *ret, CTX *this_, cv_i32 *v, PROML *p) { gh_conv_calls++; gh_
 #define CV_AWT(o)  (&(o)->base_awaiter)
 void *gh_outer;           /* the outer future<long> (harness object) */
 /* the resume lambda of a future_conv specialisation: source resolved; parked promise armed for the outer future */
-#define CONV_INVOKE_PRE(ret, me) (cv_exc_pending == 0 && gh_obj != 0 && (me) == CV_AWT((CONVB *)gh_obj) && __CPROVER_is_fresh(ret, sizeof(*ret)) && OUT_PRE && U_PRE && \
-   *F_SLOT(CV_FUT((CONVB *)gh_obj)) == F_DIS && F_STATE(CV_FUT((CONVB *)gh_obj)) == gh_out_state && (gh_out_state == ST_VALUE ==> F_VALUE(CV_FUT((CONVB *)gh_obj)) == gh_out_val) && \
-   (gh_out_state == ST_EXCEPTION ==> F_EXCP(CV_FUT((CONVB *)gh_obj)) == gh_out_exc) && gh_outer != 0 && P_OWNER(CV_PROM((CONVB *)gh_obj)) == gh_outer && \
+/* T = the future_conv_promise_base instance (CONVB: int source, CONVBV: void source - a void source has no payload in the value state) */
+#define CONV_INVOKE_PRE_T(T, ret, me) (cv_exc_pending == 0 && gh_obj != 0 && (me) == CV_AWT((T *)gh_obj) && __CPROVER_is_fresh(ret, sizeof(*ret)) && OUT_PRE && U_PRE && \
+   *F_SLOT(CV_FUT((T *)gh_obj)) == F_DIS && F_STATE(CV_FUT((T *)gh_obj)) == gh_out_state && \
+   (gh_out_state == ST_EXCEPTION ==> F_EXCP(CV_FUT((T *)gh_obj)) == gh_out_exc) && gh_outer != 0 && P_OWNER(CV_PROM((T *)gh_obj)) == gh_outer && \
    cv_caught_n == 0 && gh_or_calls == 0 && gh_pl_unarmed_calls == 0 && gh_conv_calls == 0 && gh_conv_throws <= 1 && gh_conv_uses_promise <= 1 && (gh_conv_throws ==> gh_conv_exc != 0) && gh_wait_reached == 0)
+#define CONV_INVOKE_PRE(ret, me) (CONV_INVOKE_PRE_T(CONVB, ret, me) && (gh_out_state == ST_VALUE ==> F_VALUE(CV_FUT((CONVB *)gh_obj)) == gh_out_val))
 #define CONV_INVOKE_ASSIGNS(ret) __CPROVER_assigns(__CPROVER_object_whole(ret), __CPROVER_object_whole(gh_obj), OR_GHOSTS, CONV_GHOSTS, ENV_GHOSTS, cv_exc_pending, cv_exc_obj, cv_exc_tinfo, cv_caught_n, __CPROVER_object_whole(cv_caught_obj), __CPROVER_object_whole(cv_caught_ti), gh_ep_addref, gh_ep_release, gh_sn_calls)
 /* the outer future is resolved EXACTLY once, with: the converted value / the converter's exception / the source's exception / await_canceled for a broken source promise */
-#define CONV_INVOKE_POST(ctxv) \
-__CPROVER_ensures(cv_exc_pending == 0 && gh_or_calls == 1 && gh_or_target == gh_outer && gh_pl_unarmed_calls == 0 && P_OWNER(CV_PROM((CONVB *)gh_obj)) == 0) \
-__CPROVER_ensures(gh_out_state == ST_VALUE ==> (gh_conv_calls == 1 && gh_conv_this == (void *)(ctxv) && gh_conv_arg == (void *)&F_VALUE(CV_FUT((CONVB *)gh_obj)) && gh_conv_argval == gh_out_val)) \
+#define CONV_INVOKE_POST_T(T, ctxv) \
+__CPROVER_ensures(cv_exc_pending == 0 && gh_or_calls == 1 && gh_or_target == gh_outer && gh_pl_unarmed_calls == 0 && P_OWNER(CV_PROM((T *)gh_obj)) == 0) \
+__CPROVER_ensures(gh_out_state == ST_VALUE ==> (gh_conv_calls == 1 && gh_conv_this == (void *)(ctxv))) \
 __CPROVER_ensures(gh_out_state != ST_VALUE ==> gh_conv_calls == 0) \
 __CPROVER_ensures((gh_out_state == ST_VALUE && gh_conv_throws) ==> (gh_or_kind == OR_EXC && gh_or_exc == gh_conv_exc))                   /* converter's exception */ \
 __CPROVER_ensures(gh_out_state == ST_EXCEPTION ==> (gh_or_kind == OR_EXC && gh_or_exc == gh_out_exc))                                  /* source's exception */ \
 __CPROVER_ensures(gh_out_state == ST_NOT_VALUE ==> (gh_or_kind == OR_EXC && gh_or_exc != 0 && *(void **)((cv_i8 *)gh_or_exc - CV_EXC_HDR) == (void *)TI_AWAIT_CANCELED))   /* broken promise */ \
 __CPROVER_ensures(gh_allocs == __CPROVER_old(gh_allocs) && gh_frees == __CPROVER_old(gh_frees))
+#define CONV_INVOKE_POST(ctxv) CONV_INVOKE_POST_T(CONVB, ctxv) \
+__CPROVER_ensures(gh_out_state == ST_VALUE ==> (gh_conv_arg == (void *)&F_VALUE(CV_FUT((CONVB *)gh_obj)) && gh_conv_argval == gh_out_val))   /* the converter is handed the source's value */
 int gh_wait_reached;
 #ifdef CV_HAS_conv_m_invoke_u
 void conv_m_invoke(SP *ret, AWT *me, cv_i8 *ctx)
@@ -292,6 +322,46 @@ __CPROVER_ensures((gh_out_state == ST_VALUE && !gh_conv_throws) ==> (gh_or_kind 
 #ifdef CV_HAS_conv_p_invoke_u
 void conv_p_invoke(SP *ret, AWT *me, cv_i8 *ctx)
 __CPROVER_requires(CONV_INVOKE_PRE(ret, me)) CONV_INVOKE_ASSIGNS(ret) CONV_INVOKE_POST(ctx)
+__CPROVER_ensures(gh_out_state == ST_VALUE ==> gh_conv_prom_target == gh_outer)                                                          /* the converter is handed THE outer promise */
+__CPROVER_ensures((gh_out_state == ST_VALUE && !gh_conv_throws && gh_conv_uses_promise) ==> (gh_or_kind == OR_VALUE && gh_or_val == gh_conv_ret && RET_IS_U(ret)))
+__CPROVER_ensures((gh_out_state == ST_VALUE && !gh_conv_throws && !gh_conv_uses_promise) ==> gh_or_kind == OR_DROP)                      /* converter resolved nothing: not left pending for ever */
+;
+#endif
+/* ---- void-source specialisations To (Ctx::*)() and suspend_point<void> (Ctx::*)(promise<To>&) (audit E/D3).  The property does not distinguish them:
+ * "Converters deliver exactly the converted value, or the exception thrown by the source or the converter, to the outer future" - a failed source
+ * (exception / broken promise) must reach the outer future, the converter runs only for a source that delivered. */
+#ifdef CV_HAS_ctx0_conv
+cv_i64 ctx0_conv(CTX0 *this_) { gh_conv_calls++; gh_conv_this = this_; gh_conv_arg = 0; if (gh_conv_throws) { CONV_THROW(); return 0; } return gh_conv_ret; }
+#endif
+#ifdef CV_HAS_ctx0_conv_p
+void ctx0_conv_p(SP *ret, CTX0 *this_, PROML *p) { gh_conv_calls++; gh_conv_this = this_; gh_conv_arg = 0; gh_conv_prom_target = P_OWNER(p);
+  ret->_count_flag = 0;
+  if (gh_conv_throws) { CONV_THROW(); return; }
+  if (gh_conv_uses_promise) { outer_resolve(p, OR_VALUE, gh_conv_ret, 0); SET_U(ret); } }
+#endif
+#ifdef CV_HAS_conv_v_invoke_u
+void conv_v_invoke(SP *ret, AWT *me, cv_i8 *ctx)
+__CPROVER_requires(CONV_INVOKE_PRE_T(CONVBV, ret, me)) CONV_INVOKE_ASSIGNS(ret)      /* the clauses of CONV_INVOKE_POST_T(CONVBV, ctx), written out so that a failure names its clause */
+__CPROVER_ensures(cv_exc_pending == 0 && gh_or_calls == 1 && gh_or_target == gh_outer && gh_pl_unarmed_calls == 0 && P_OWNER(CV_PROM((CONVBV *)gh_obj)) == 0)   /* outer future resolved exactly once */
+__CPROVER_ensures(gh_out_state == ST_VALUE ==> (gh_conv_calls == 1 && gh_conv_this == (void *)ctx))
+__CPROVER_ensures(gh_out_state != ST_VALUE ==> gh_conv_calls == 0)                                                                       /* C18-D3: a failed source is not converted */
+__CPROVER_ensures((gh_out_state == ST_VALUE && gh_conv_throws) ==> (gh_or_kind == OR_EXC && gh_or_exc == gh_conv_exc))                   /* converter's exception */
+__CPROVER_ensures(gh_out_state == ST_EXCEPTION ==> (gh_or_kind == OR_EXC && gh_or_exc == gh_out_exc))                                  /* C18-D3: the source's exception reaches the outer future */
+__CPROVER_ensures(gh_out_state == ST_NOT_VALUE ==> (gh_or_kind == OR_EXC && gh_or_exc != 0 && *(void **)((cv_i8 *)gh_or_exc - CV_EXC_HDR) == (void *)TI_AWAIT_CANCELED))   /* C18-D3: broken source promise */
+__CPROVER_ensures(gh_allocs == __CPROVER_old(gh_allocs) && gh_frees == __CPROVER_old(gh_frees))
+__CPROVER_ensures((gh_out_state == ST_VALUE && !gh_conv_throws) ==> (gh_or_kind == OR_VALUE && gh_or_val == gh_conv_ret))                /* exactly the converted value */
+;
+#endif
+#ifdef CV_HAS_conv_vp_invoke_u
+void conv_vp_invoke(SP *ret, AWT *me, cv_i8 *ctx)
+__CPROVER_requires(CONV_INVOKE_PRE_T(CONVBV, ret, me)) CONV_INVOKE_ASSIGNS(ret)      /* the clauses of CONV_INVOKE_POST_T(CONVBV, ctx), written out so that a failure names its clause */
+__CPROVER_ensures(cv_exc_pending == 0 && gh_or_calls == 1 && gh_or_target == gh_outer && gh_pl_unarmed_calls == 0 && P_OWNER(CV_PROM((CONVBV *)gh_obj)) == 0)   /* outer future resolved exactly once */
+__CPROVER_ensures(gh_out_state == ST_VALUE ==> (gh_conv_calls == 1 && gh_conv_this == (void *)ctx))
+__CPROVER_ensures(gh_out_state != ST_VALUE ==> gh_conv_calls == 0)                                                                       /* C18-D3: a failed source is not converted */
+__CPROVER_ensures((gh_out_state == ST_VALUE && gh_conv_throws) ==> (gh_or_kind == OR_EXC && gh_or_exc == gh_conv_exc))                   /* converter's exception */
+__CPROVER_ensures(gh_out_state == ST_EXCEPTION ==> (gh_or_kind == OR_EXC && gh_or_exc == gh_out_exc))                                  /* C18-D3: the source's exception reaches the outer future */
+__CPROVER_ensures(gh_out_state == ST_NOT_VALUE ==> (gh_or_kind == OR_EXC && gh_or_exc != 0 && *(void **)((cv_i8 *)gh_or_exc - CV_EXC_HDR) == (void *)TI_AWAIT_CANCELED))   /* C18-D3: broken source promise */
+__CPROVER_ensures(gh_allocs == __CPROVER_old(gh_allocs) && gh_frees == __CPROVER_old(gh_frees))
 __CPROVER_ensures(gh_out_state == ST_VALUE ==> gh_conv_prom_target == gh_outer)                                                          /* the converter is handed THE outer promise */
 __CPROVER_ensures((gh_out_state == ST_VALUE && !gh_conv_throws && gh_conv_uses_promise) ==> (gh_or_kind == OR_VALUE && gh_or_val == gh_conv_ret && RET_IS_U(ret)))
 __CPROVER_ensures((gh_out_state == ST_VALUE && !gh_conv_throws && !gh_conv_uses_promise) ==> gh_or_kind == OR_DROP)                      /* converter resolved nothing: not left pending for ever */
@@ -314,6 +384,16 @@ __CPROVER_ensures(cv_exc_pending == 0 && CONV_CONSTRUCTED((CONVB *)this_, conv_f
 void conv_p_ctor(CONVP *this_, CTX *ctx)
 __CPROVER_requires(cv_exc_pending == 0 && __CPROVER_is_fresh(this_, sizeof(*this_))) __CPROVER_assigns(__CPROVER_object_whole(this_))
 __CPROVER_ensures(cv_exc_pending == 0 && CONV_CONSTRUCTED((CONVB *)this_, conv_p_invoke, ctx));
+#endif
+#ifdef CV_HAS_conv_v_ctor
+void conv_v_ctor(CONVV *this_, CTX0 *ctx)
+__CPROVER_requires(cv_exc_pending == 0 && __CPROVER_is_fresh(this_, sizeof(*this_))) __CPROVER_assigns(__CPROVER_object_whole(this_))
+__CPROVER_ensures(cv_exc_pending == 0 && CONV_CONSTRUCTED((CONVBV *)this_, conv_v_invoke, ctx));
+#endif
+#ifdef CV_HAS_conv_vp_ctor
+void conv_vp_ctor(CONVVP *this_, CTX0 *ctx)
+__CPROVER_requires(cv_exc_pending == 0 && __CPROVER_is_fresh(this_, sizeof(*this_))) __CPROVER_assigns(__CPROVER_object_whole(this_))
+__CPROVER_ensures(cv_exc_pending == 0 && CONV_CONSTRUCTED((CONVBV *)this_, conv_vp_invoke, ctx));
 #endif
 /* registration: operator<<(fn) -> future<To>;  operator()(promise) -> Hlp;  Hlp::operator<<(fn).  The specialisation's resume function is
  * abstract here (recording stub rs_stub installed by the harness, dispatched through the CV_ICALL_EXTRA hook). */
